@@ -9,7 +9,7 @@ recomputed by the model's `timeSlice`."""
 from harness import runs, runcommon
 
 ID = "C07"
-THEOREM_MODULES = ["JF.Props.C07"]
+THEOREM_MODULES = ["JF.Props.C07", "JF.Props.C07Eoc"]
 COMPONENTS = ["sys"]
 ASSUMPTIONS = ["theorems: exact (rational) reading of the chain machine for point masses; committed times are non-decreasing "
                "because the scheduler returns a minimal live candidate (C06) and candidates are computed by adding a "
@@ -40,6 +40,7 @@ def run(ctx):
         if meta["levels"] == 1:
             runcommon.replay_point_masses(ctx, tr)
         n = runcommon.replay_slices(ctx, tr)
+        runcommon.replay_end_of_chain(ctx, tr)
         runcommon.record_trace_stats(ctx, tr, stats)
         if len(ctx.samples) < 4 and tr["legs"]:
             leg = tr["legs"][min(5, len(tr["legs"]) - 1)]
